@@ -186,8 +186,10 @@ def _nodes(e):
 def _closed(e):
     if not isinstance(e, tuple) or not e:
         return True
-    if e[0] in ("local", "other", "site", "closure"):
+    if e[0] in ("local", "other", "site"):
         return False
+    if e[0] == "closure":
+        return not e[2]       # a closure that captures nothing is a constant
     if e[0] == "call" and isinstance(e[1], tuple):
         return False
     return all(_closed(x) for x in e if isinstance(x, tuple))
